@@ -10,7 +10,7 @@
    (removes c). *)
 From Coq Require Import List NArith Bool.
 From GV.Base Require Import Alist.
-From GV.Client Require Import Queues QueuesFacts.
+From GV.Client Require Import Queues QueuesFacts QueuesGone.
 Import ListNotations.
 Open Scope N_scope.
 
@@ -92,6 +92,33 @@ Theorem C13_duplicate_terminal_is_violating c evs id x : NoDup (queued_ids evs) 
 Proof. exact (duplicate_terminal_is_violating c evs id x). Qed.
 Print Assumptions C13_duplicate_terminal_is_violating.
 
+(* ---- without any assumption on the ids: the same id twice inside one request, ids of pending or of
+   completed operations in later requests ---- *)
+
+(* never silently gone: an operation of a message that Q accepted is at all times pending as itself (the
+   pending queue holds THAT operation under its id) or resulted (a result for its id with its type and key) *)
+Theorem C13_never_silently_gone c evs o : In o (accepted_ops c init evs) -> accounted (run c init evs) o.
+Proof. exact (never_silently_gone c evs o). Qed.
+Print Assumptions C13_never_silently_gone.
+
+(* a message is rejected when it carries the same id twice, or the id of a pending operation ... *)
+Theorem C13_same_id_twice_is_rejected s m o1 o2 l1 l2 l3 :
+  m_ops m = l1 ++ o1 :: l2 ++ o2 :: l3 -> o_id o1 = o_id o2 -> rejected s m = true.
+Proof. exact (rejected_twice s m o1 o2 l1 l2 l3). Qed.
+Print Assumptions C13_same_id_twice_is_rejected.
+
+Theorem C13_pending_id_is_rejected s m o : In o (m_ops m) -> pget (o_id o) (pend s) <> None -> rejected s m = true.
+Proof. exact (rejected_pending s m o). Qed.
+Print Assumptions C13_pending_id_is_rejected.
+
+(* ... and a rejected message leaves a send error on record for ever after: AwaitConverged never reports
+   success again *)
+Theorem C13_rejected_request_surfaces c evs m evs' : rejected (run c init evs) m = true ->
+  let s' := run c init (evs ++ Q m :: evs') in
+  1 <= send_errs s' /\ await s' <> AwOk.
+Proof. exact (rejected_surfaces c evs m evs'). Qed.
+Print Assumptions C13_rejected_request_surfaces.
+
 (* the tree as it is: in FIB-ack mode a RIB_PROGRAMMED for an id that was never queued is
    accepted silently (gribiclient.go:1069-1080) and AwaitConverged reports success *)
 Theorem C13_unknown_rib_ack_refuted :
@@ -115,4 +142,15 @@ Example C13_example :
        [RParams false; ROp 2 SRib (Some (2, 5, 7)); ROp 1 SRib (Some (1, 1, 4)); ROp 3 SFailed (Some (3, 4, 9));
         ROp 1 SFib (Some (1, 1, 4)); ROp 2 SFibFailed (Some (2, 5, 7))]
   /\ await (run c init (evs ++ [Resp (mkrsp [(2, SFib)] false false)])) = AwErr 0 1.
+Proof. vm_compute. repeat split; reflexivity. Qed.
+
+(* non-vacuity: a request with the same id twice: the first operation is registered, the second is not, the send
+   error is on record; the answer for the id completes the FIRST operation; AwaitConverged reports the error *)
+Example C13_example_same_id_twice :
+  let c := mkcfg false false false v_fixed in
+  let m := mkmsg [mkop 5 1 1 4; mkop 5 3 5 7; mkop 6 1 1 2] false false in
+  let evs := [StartSending; Q m; Resp (mkrsp [(5, SRib)] false false)] in
+  let s := run c init evs in
+  rejected (run c init [StartSending]) m = true
+  /\ results s = [ROp 5 SRib (Some (1, 1, 4))] /\ pend s = [] /\ send_errs s = 1 /\ await s = AwErr 1 0.
 Proof. vm_compute. repeat split; reflexivity. Qed.
